@@ -214,8 +214,11 @@ def site_binary_reader(prog):
         else:
             roles[prm["lid"]] = ("in", prm["name"])
     prims = [(re.compile(r"InstanceBuilder::add_property$"), sink_prim("store"))]
-    I, val, ex = wire.run_region(prog, fn.body, roles, prims, depth=6, opaque={PERFORM, "rbx_dom_weak::instance::InstanceBuilder::has_property"})
-    return fn, analyse_paths(summarise(I.events), 1, 2, {"store"})
+    I, val, ex = wire.run_region(prog, fn.body, roles, prims, depth=6, opaque={PERFORM, "rbx_dom_weak::instance::InstanceBuilder::has_property"}, split_try=lambda t: contains(t, PERFORM))
+    paths = summarise(I.events)
+    res = analyse_paths(paths, 1, 2, {"store"})
+    res["err_paths"] = err_paths_need_absent(paths)
+    return fn, res
 
 
 def site_xml_writer(prog):
@@ -290,7 +293,7 @@ def site_xml_reader(prog):
              (re.compile(r"deserializer_core::XmlEventReader::<R>::"), opaque_prim),
              (re.compile(r"HashMap::<K, V, S(, A)?>::insert$|VacantEntry::<'a, K, V(, A)?>::insert$|OccupiedEntry::<'a, K, V(, A)?>::insert$|Entry::<'a, K, V(, A)?>::or_insert(_with)?$"), sink_prim("store"))]
     env = {p["lid"]: ("in", p["name"]) for p in fn.params}
-    I, val, ex = wire.run_region(prog, fn.body, env, prims, depth=5, opaque={PERFORM})
+    I, val, ex = wire.run_region(prog, fn.body, env, prims, depth=5, opaque={PERFORM}, split_try=lambda t: contains(t, PERFORM))
     loops = []
 
     def find(evs):
@@ -317,4 +320,112 @@ def site_xml_reader(prog):
                 ns.append((k, a))
         norm.append((fs, ns, x, v))
     res = analyse_paths(norm, 1, 2, {"store"})
+    res["err_paths"] = err_paths_need_absent(norm)
     return fn, res
+
+
+# ------------------------------------------------------------------------------------------------ explicit (non-migrating) scenario
+
+def plain_descriptor():
+    kind = ("varn", PK + "::Canonical", (("serialization", sym.var(PS + "::Serializes")),))
+    return ("st", PD, (("name", ("in", "explicit_name")), ("kind", kind), ("data_type", ("in", "dt")), ("scriptability", ("in", "s")), ("tags", ("in", "t"))))
+
+
+PRESENCE = ("InstanceBuilder::has_property", "::contains_key", "::contains", "Entry::Vacant", "Entry::Occupied", "::get", "::entry")
+
+
+def presence_facts(fs):
+    """facts of a path that test whether a property is already stored"""
+    out = []
+    for f in fs:
+        g, neg = unneg(f)
+        txt = repr(g)
+        if any(p in txt for p in PRESENCE) and ("has_property" in txt or "Entry::" in txt or "contains_key" in txt or "props" in txt):
+            out.append(sym.term_str(g, 4) if hasattr(sym, "term_str") else txt[:80])
+    return out
+
+
+def analyse_explicit(paths, name_idx, value_idx):
+    """an explicit (non-migrating) property value: every path stores it, and no path's decision to store looks at what
+    is already there (a later explicit value must replace an earlier migrated one)"""
+    res = {"paths": 0, "stores": 0, "silent_skips": 0, "guarded": []}
+    for fs, sinks, x, v in paths:
+        if x not in (None, "continue"):
+            continue        # error exits and the end of the element list are not paths of one explicit property
+        res["paths"] += 1
+        st = [(k, a) for k, a in sinks if k == "store" and contains(a[value_idx], ("in", "value"))]
+        pf = presence_facts(fs)
+        if st:
+            res["stores"] += 1
+        else:
+            res["silent_skips"] += 1
+        if pf:
+            res["guarded"].append(pf[0])
+    return res
+
+
+def explicit_binary_reader(prog):
+    fn = prog.fn("rbx_binary::deserializer::state::add_property")
+    CP = "rbx_binary::deserializer::state::CanonicalProperty"
+    cp = ("st", CP, (("name", ("in", "explicit_name")), ("ty", ("in", "ty")), ("migration", sym.var(sym.NONE))))
+    roles = {}
+    for prm in fn.params:
+        ty = prm.get("ty") or ""
+        if "CanonicalProperty" in ty:
+            roles[prm["lid"]] = cp
+        elif ty.endswith("variant::Variant"):
+            roles[prm["lid"]] = ("in", "value")
+        else:
+            roles[prm["lid"]] = ("in", prm["name"])
+    prims = [(re.compile(r"InstanceBuilder::add_property$"), sink_prim("store"))]
+    I, val, ex = wire.run_region(prog, fn.body, roles, prims, depth=6, opaque={PERFORM, "rbx_dom_weak::instance::InstanceBuilder::has_property"})
+    return fn, analyse_explicit(summarise(I.events), 1, 2)
+
+
+def explicit_xml_reader(prog):
+    fn = prog.fn("rbx_xml::deserializer::deserialize_properties")
+    desc = plain_descriptor()
+    prims = [(re.compile(r"core::find_canonical_property_descriptor$"), const_prim(sym.var(sym.SOME, desc))),
+             (re.compile(r"types::read_value_xml$"), const_prim(sym.var(sym.OK, sym.var(sym.SOME, ("in", "value"))))),
+             (re.compile(r"ConvertVariant::try_convert$"), const_prim(sym.var(sym.OK, ("in", "value")))),
+             (re.compile(r"DecodeOptions::<'db>::use_reflection$"), const_prim(C(True))),
+             (re.compile(r"deserializer_core::XmlEventReader::<R>::"), opaque_prim),
+             (re.compile(r"HashMap::<K, V, S(, A)?>::insert$|VacantEntry::<'a, K, V(, A)?>::insert$|OccupiedEntry::<'a, K, V(, A)?>::insert$|Entry::<'a, K, V(, A)?>::or_insert(_with)?$"), sink_prim("store"))]
+    env = {p["lid"]: ("in", p["name"]) for p in fn.params}
+    I, val, ex = wire.run_region(prog, fn.body, env, prims, depth=5, opaque={PERFORM})
+    loops = []
+
+    def find(evs):
+        for e in evs:
+            if e[0] == "rep":
+                if any(contains(x, ("in", "value")) for x in e[2]):
+                    loops.append(e)
+                find(e[2])
+            elif e[0] == "alt":
+                for alt in e[1]:
+                    find(alt[1])
+    find(I.events)
+    outer = [l for l in loops if not any(l is not m and contains(m[2], l) for m in loops)]
+    if len(outer) != 1:
+        raise core.AnchorMissing(f"deserialize_properties: expected one property loop storing the value read, found {len(outer)}")
+    paths = summarise(outer[0][2])
+    normp = []
+    for fs, sinks, x, v in paths:
+        ns = [((k, (a[0], a[0], a[1])) if k == "store" and len(a) == 2 else (k, a)) for k, a in sinks]
+        normp.append((fs, ns, x, v))
+    return fn, analyse_explicit(normp, 1, 2)
+
+
+def err_paths_need_absent(paths, store_kinds=("store",)):
+    """paths on which a failed perform() ends decoding with an error: how many of them know that the destination is absent"""
+    total = blind = 0
+    for fs, sinks, x, v in paths:
+        if perform_state(fs, sinks) != "err":
+            continue
+        hard = x == "err" or (x == "return" and v is not None and not sym.is_var(v, sym.OK))
+        if not hard:
+            continue
+        total += 1
+        if not has_dest_absent_fact(fs, TESTS):
+            blind += 1
+    return total, blind
